@@ -6,6 +6,7 @@ landing anywhere — also between a write task's done() test and its write — a
 failing rename, and the cleanups.  The model is `Fs2`; the real manager's traces are replayed on it.
 -/
 import S3V.Model.Fs2
+import S3V.Props.Serial
 
 namespace S3V.C06
 open S3V.Fs2
@@ -137,5 +138,21 @@ example : (run {} [.queueWrite, .pickWrite false, .openTemp, .writeEnd true, .qu
       .getsDone, .pickFinal false, .rename true]).map (fun s => (s.final, s.temp)) = some (.complete, .absent) := by decide
 example : (run {} [.queueWrite, .pickWrite false, .openTemp, .fail, .writeEnd true, .queueWrite, .pickWrite true, .getsDone,
       .pickFinal true, .cleanup]).map (fun s => (s.final, s.temp, s.lateWrites)) = some (.absentOrPrevious, .absent, 0) := by decide
+
+/-- **The rename of a single-request download on a serial manager runs only after a complete GET**:
+for every outcome of the GET task and of the rename (success, an ordinary exception, Ctrl-C), the rename's
+main is among the mains that ran exactly when the GET's main returned normally (D18: before the repair
+a Ctrl-C inside the GET was followed by the rename of the partial file) -/
+theorem serial_rename_only_after_complete_get (get ren : S3V.Serial.Out) :
+    (1 ∈ (S3V.Serial.manager S3V.Serial.Tables.current
+        [{ id := 0, isFinal := false, out := get, after := some { id := 1, isFinal := true, out := ren } }]).1.ran)
+      ↔ get = .ok := by
+  cases get with
+  | ok => cases ren with
+    | ok => decide
+    | raise e => cases e <;> decide
+  | raise e => cases e <;> (cases ren with
+    | ok => decide
+    | raise e' => cases e' <;> decide)
 
 end S3V.C06
